@@ -2,16 +2,19 @@
   Model of asynq/generator.py: `@async_generator()`, `Value`, `_AsyncGenerator.send/_send_inner/_get_one_value/next`,
   `END_OF_GENERATOR`, and the consumer loops `list_of_generator` and `take_first`.
 
-  A generator body is a list of steps `await | value v`: `await` is `yield <some future>` (the body waits for
-  its result), `value v` is `yield Value(v)`.  Values are identity tokens (Nat).  Awaited futures succeed
+  A generator body is a list of steps `await b | value v`: `await b` is `yield <some future>` (the body waits for
+  its result; `b` = that future cannot complete before the scheduler flushes a batch, so a task awaiting it is
+  parked, started but not computed), `value v` is `yield Value(v)`.  Values are identity tokens (Nat) - whatever the
+  payload is, also when it is itself a future.  Awaited futures succeed
   (assumption).  The state has one field per attribute of `_AsyncGenerator` plus the position of the underlying
   Python generator; the futures handed to the caller by `next()` are kept in `futs` so that a history of
-  caller operations (next / compute a future / take_first / list_of_generator) can be replayed.
+  caller operations (next / compute a future / take_first / list_of_generator / compute a future while a sibling
+  task advances the generator) can be replayed.
 -/
 namespace AsynqModel.Generator
 
 inductive Step where
-  | await               -- `yield <future>`
+  | await (blocks : Bool)   -- `yield <future>`; `blocks` = the future needs a batch flush to complete
   | value (v : Nat)     -- `yield Value(v)`
   deriving Repr, DecidableEq, Inhabited
 
@@ -26,7 +29,8 @@ inductive Item where
 /-- a future that `next()` handed to the caller -/
 inductive Fut where
   | const (v : Nat)     -- ConstFuture(first_value.value): computed from construction
-  | pending             -- `_send_inner.asynq(first_value)`, not computed yet
+  | pending (blocks : Bool)   -- `_send_inner.asynq(first_value)`, not computed yet (started or not);
+                              -- `blocks` = `first_value` needs a batch flush
   | done (r : Item)     -- that task, computed
   deriving Repr, DecidableEq, Inhabited
 
@@ -48,15 +52,30 @@ inductive Res where
   | raised (x : Exc)
   deriving Repr, DecidableEq, Inhabited
 
+/-- the ways of advancing the generator -/
+inductive Adv where
+  | next | take (n : Nat) | list
+  deriving Repr, DecidableEq, Inhabited
+
 inductive Op where
   | next                -- next(gen), the returned future is kept by the caller
   | compute (k : Nat)   -- .value() of the k-th future the caller holds
   | take (n : Nat)      -- take_first(gen, n)
   | list                -- list_of_generator(gen)
+  | par (k : Nat) (a : Adv)   -- two consumers: `yield held[k], sibling.asynq()` where the sibling advances the
+                              -- generator by `a` - it runs when the k-th future has run as far as it can without
+                              -- a batch flush (started, parked, not computed - or already computed)
   deriving Repr, DecidableEq, Inhabited
+
+def Adv.toOp : Adv → Op
+  | .next => .next | .take n => .take n | .list => .list
+
+def Adv.name : Adv → String
+  | .next => "next" | .take 0 => "take0" | .take _ => "take" | .list => "list"
 
 def Op.name : Op → String
   | .next => "next" | .compute _ => "compute" | .take 0 => "take0" | .take _ => "take" | .list => "list"
+  | .par _ a => "par-" ++ a.name
 
 structure St where
   rest : Body                  -- what the underlying Python generator has not yielded yet
@@ -71,7 +90,7 @@ def init (b : Body) : St := { rest := b, pulled := 0, stopped := false, lastTask
 /-- `self.last_task is not None and not self.last_task.is_computed()` (generator.py:136-137) -/
 def St.blocked (s : St) : Bool :=
   match s.lastTask with
-  | some (.handle k) => (match s.futs[k]? with | some .pending => true | _ => false)
+  | some (.handle k) => (match s.futs[k]? with | some (.pending _) => true | _ => false)
   | _ => false
 
 /-- `_get_one_value` (generator.py:168-173): `none` = StopIteration (after setting `is_stopped`) -/
@@ -83,7 +102,7 @@ def getOneValue (s : St) : St × Option Step :=
 inductive SendRes where
   | raised (x : Exc)
   | const (v : Nat)     -- `return ConstFuture(first_value.value)`
-  | task                -- `return task` (and `last_task = task`)
+  | task (blocks : Bool)   -- `return task` (and `last_task = task`); `blocks`: the first awaited future
   deriving Repr, DecidableEq, Inhabited
 
 /-- `send(None)` = `next()` (generator.py:127-152); `ref` is the identity of the task that would be created -/
@@ -94,19 +113,34 @@ def send (s : St) (ref : LastRef) : St × SendRes :=
     match getOneValue s with                              -- 147
     | (s1, none) => (s1, .raised .stopIteration)          -- StopIteration leaves _get_one_value and send
     | (s1, some (.value v)) => (s1, .const v)             -- 148-149 (last_task is NOT updated)
-    | (s1, some .await) => ({ s1 with lastTask := some ref }, .task)   -- 150-152
+    | (s1, some (.await b)) => ({ s1 with lastTask := some ref }, .task b)   -- 150-152
 
-/-- the `while True` of `_send_inner` (generator.py:158-166), after `yield first_task` returned -/
+/-- the `while True` of `_send_inner` (generator.py:158-166), after `yield first_task` returned; `_send_inner` never
+    assigns `last_task` -/
 def sendInnerLoop : Nat → St → St × Item
   | 0, s => (s, .endMarker)   -- out of fuel: never reached with the fuel `sendInner` gives (drain_spec)
   | fuel + 1, s =>
     match getOneValue s with
     | (s1, none) => (s1, .endMarker)                   -- except StopIteration: return END_OF_GENERATOR
     | (s1, some (.value v)) => (s1, .val v)            -- return value.value
-    | (s1, some .await) => sendInnerLoop fuel s1       -- yield_result = yield value
+    | (s1, some (.await _)) => sendInnerLoop fuel s1   -- yield_result = yield value
 
-/-- computing a `_send_inner` task -/
+/-- computing a `_send_inner` task (to the end, however often it is parked on the way) -/
 def sendInner (s : St) : St × Item := sendInnerLoop (s.rest.length + 1) s
+
+/-- the same loop as far as it gets without a batch flush: `none` = parked on a future that needs one -/
+def startLoop : Nat → St → St × Option Item
+  | 0, s => (s, none)
+  | fuel + 1, s =>
+    match getOneValue s with
+    | (s1, none) => (s1, some .endMarker)
+    | (s1, some (.value v)) => (s1, some (.val v))
+    | (s1, some (.await true)) => (s1, none)             -- `yield value` parks the task
+    | (s1, some (.await false)) => startLoop fuel s1
+
+/-- starting a `_send_inner` task whose `first_task` blocks or not -/
+def startTask (s : St) (firstBlocks : Bool) : St × Option Item :=
+  if firstBlocks then (s, none) else startLoop (s.rest.length + 1) s
 
 /-- `.value()` of the k-th future the caller holds -/
 def compute (s : St) (k : Nat) : St × Res :=
@@ -114,7 +148,7 @@ def compute (s : St) (k : Nat) : St × Res :=
   | none => (s, .raised .other)
   | some (.const v) => (s, .item (.val v))
   | some (.done r) => (s, .item r)
-  | some .pending =>
+  | some (.pending _) =>
     let (s1, r) := sendInner s
     ({ s1 with futs := s1.futs.set k (.done r) }, .item r)
 
@@ -123,14 +157,14 @@ def next (s : St) : St × Res :=
   match send s (.handle s.futs.length) with
   | (s1, .raised x) => (s1, .raised x)
   | (s1, .const v) => ({ s1 with futs := s1.futs ++ [.const v] }, .fut (some v))
-  | (s1, .task) => ({ s1 with futs := s1.futs ++ [.pending] }, .fut none)
+  | (s1, .task b) => ({ s1 with futs := s1.futs ++ [.pending b] }, .fut none)
 
 /-- one trip of `for task in generator:` + `value = yield task` (generator.py:94-95 and 108-109) -/
 def pull (s : St) : St × Except Exc Item :=
   match send s .internal with
   | (s1, .raised x) => (s1, .error x)
   | (s1, .const v) => (s1, .ok (.val v))
-  | (s1, .task) => let (s2, r) := sendInner s1; (s2, .ok r)
+  | (s1, .task _) => let (s2, r) := sendInner s1; (s2, .ok r)
 
 /-- `list_of_generator` (generator.py:90-99) -/
 def listLoop : Nat → St → List Item → St × Res
@@ -161,24 +195,51 @@ def takeLoop : Nat → Nat → Nat → St → List Item → St × Res
 def takeFirst (s : St) (n : Nat) : St × Res :=
   if n == 0 then (s, .lst []) else takeLoop (s.rest.length + 1) n 0 s []
 
-def step (s : St) : Op → St × Res
+def stepBasic (s : St) : Op → St × Res
   | .next => next s
   | .compute k => compute s k
   | .take n => takeFirst s n
   | .list => listOf s
+  | .par _ _ => (s, .raised .other)   -- not a basic operation (see `par`)
+
+/-- `first, second = yield held[k], sibling.asynq()`: the scheduler runs the k-th future first, as far as it gets
+    without flushing a batch; then the sibling advances the generator (`Bool` = was the k-th future computed at that
+    moment, `Res` = what the sibling's advance gave); then everything is run to completion -/
+def par (s : St) (k : Nat) (a : Adv) : St × Res × Option (Bool × Res) :=
+  match s.futs[k]? with
+  | none => (s, .raised .other, none)
+  | some (.const v) => let (s1, r2) := stepBasic s a.toOp; (s1, .item (.val v), some (true, r2))
+  | some (.done x) => let (s1, r2) := stepBasic s a.toOp; (s1, .item x, some (true, r2))
+  | some (.pending b) =>
+    match startTask s b with
+    | (s1, some x) =>
+      let (s2, r2) := stepBasic { s1 with futs := s1.futs.set k (.done x) } a.toOp
+      (s2, .item x, some (true, r2))
+    | (s1, none) =>
+      let (s2, r2) := stepBasic s1 a.toOp          -- the task is started, parked, NOT computed
+      let (s3, x) := sendInner s2                   -- the batch is flushed, the task runs to its end
+      ({ s3 with futs := s3.futs.set k (.done x) }, .item x, some (false, r2))
 
 /-- what the harness records after every operation -/
 structure Obs where
   op : Op
   res : Res
+  sib : Option (Bool × Res)   -- `par` only: was held[k] computed when the sibling ran, and the sibling's result
   pos : Nat      -- items the underlying generator has yielded so far
   fin : Bool     -- the underlying generator has run off its end
   bad : Nat      -- awaits of the body that were resumed with something else than the awaited result
   deriving Repr, DecidableEq, Inhabited
 
+def observeBasic (s : St) (op : Op) : St × Obs :=
+  let (s1, r) := stepBasic s op
+  (s1, { op := op, res := r, sib := none, pos := s1.pulled, fin := s1.stopped, bad := 0 })
+
 def observe (s : St) (op : Op) : St × Obs :=
-  let (s1, r) := step s op
-  (s1, { op := op, res := r, pos := s1.pulled, fin := s1.stopped, bad := 0 })
+  match op with
+  | .par k a =>
+    let (s1, r, sib) := par s k a
+    (s1, { op := .par k a, res := r, sib := sib, pos := s1.pulled, fin := s1.stopped, bad := 0 })
+  | op => observeBasic s op
 
 def run (s : St) : List Op → List Obs
   | [] => []
@@ -196,15 +257,20 @@ def finalState (s : St) : List Op → St
 
 /-- skip the awaits a `_send_inner` task consumes -/
 def skipAwaits : Body → Body
-  | .await :: r => skipAwaits r
+  | .await _ :: r => skipAwaits r
   | b => b
+
+/-- does a `_send_inner` task that has `b` before it get parked (one of the awaits it consumes needs a flush)? -/
+def leadBlock : Body → Bool
+  | .await b :: r => b || leadBlock r
+  | _ => false
 
 /-- `inTask` = the outer generator is awaiting an inner task whose Value has not been produced yet -/
 def wrapAux : Bool → Body → Body
   | _, [] => []
-  | false, .value v :: r => .await :: .value v :: wrapAux false r   -- inner ConstFuture: await it, re-yield
-  | false, .await :: r => .await :: wrapAux true r                  -- inner task: await it
-  | true, .await :: r => wrapAux true r                             -- consumed inside the inner task
+  | false, .value v :: r => .await false :: .value v :: wrapAux false r   -- inner ConstFuture: await it, re-yield
+  | false, .await b :: r => .await (b || leadBlock r) :: wrapAux true r   -- inner task: await it (parks if it parks)
+  | true, .await _ :: r => wrapAux true r                           -- consumed inside the inner task
   | true, .value v :: r => .value v :: wrapAux false r              -- the inner task's result, re-yielded
 
 def wrap (b : Body) : Body := wrapAux false b
@@ -218,14 +284,14 @@ def wrapN : Nat → Body → Body
 
 def values : Body → List Nat
   | [] => []
-  | .await :: r => values r
+  | .await _ :: r => values r
   | .value v :: r => v :: values r
 
 /-- the body after its n-th Value (`[]` if it has fewer): how far `take_first(gen, n)` may advance -/
 def dropValues : Nat → Body → Body
   | 0, b => b
   | _ + 1, [] => []
-  | n + 1, .await :: r => dropValues (n + 1) r
+  | n + 1, .await _ :: r => dropValues (n + 1) r
   | n + 1, .value _ :: r => dropValues n r
 
 structure Watch where
@@ -243,8 +309,14 @@ def Res.hasMarker : Res → Bool
   | .lst l => l.any (· == .endMarker)
   | _ => false
 
-/-- one observation against the reference; returns the clause that fails -/
-def watchStep (total : Nat) (w : Watch) (ob : Obs) : Except String Watch :=
+/-- the outstanding task k runs to its end: it delivers the next Value after the awaits, or END_OF_GENERATOR -/
+def drainWatch (w : Watch) (k : Nat) : Watch × Item :=
+  match skipAwaits w.rest with
+  | .value v :: r => ({ w with rest := r, known := w.known.set k (some (.val v)) }, .val v)
+  | _ => ({ rest := [], fin := true, known := w.known.set k (some .endMarker) }, .endMarker)
+
+/-- one observation of a basic operation against the reference; returns the clause that fails -/
+def watchBasic (total : Nat) (w : Watch) (ob : Obs) : Except String Watch :=
   if ob.bad != 0 then .error "await-result" else
   if ob.res.hasMarker then .error "end-marker" else
   match ob.op with
@@ -261,7 +333,7 @@ def watchStep (total : Nat) (w : Watch) (ob : Obs) : Except String Watch :=
         if ob.res == .fut (some v) && ob.pos + r.length == total && ob.fin == w.fin then
           .ok { w with rest := r, known := w.known ++ [some (.val v)] }
         else .error "next-value"
-      | .await :: r =>
+      | .await _ :: r =>
         if ob.res == .fut none && ob.pos + r.length == total && ob.fin == w.fin then
           .ok { w with rest := r, known := w.known ++ [none] }
         else .error "next-task"
@@ -304,6 +376,45 @@ def watchStep (total : Nat) (w : Watch) (ob : Obs) : Except String Watch :=
       if ob.res != .lst ((values w.rest).map .val) then .error "list-values"
       else if ob.pos != total || !ob.fin then .error "list-consumed"
       else .ok { w with rest := [], fin := true }
+  | .par _ _ => .error "not-basic"
+
+/-- the sibling's advance, judged as the basic operation it is, with the position observed at the end -/
+def sibObs (ob : Obs) (a : Adv) (r2 : Res) : Obs :=
+  { op := a.toOp, res := r2, sib := none, pos := ob.pos, fin := ob.fin, bad := ob.bad }
+
+/-- what an advance must give while the previously returned task is not computed -/
+def refused (a : Adv) : Res :=
+  match a with
+  | .take 0 => .lst []            -- take_first(gen, 0) does not advance
+  | _ => .raised .runtimeError
+
+/-- one observation against the reference; returns the clause that fails -/
+def watchStep (total : Nat) (w : Watch) (ob : Obs) : Except String Watch :=
+  match ob.op with
+  | .par k a =>
+    if ob.bad != 0 then .error "await-result" else
+    match ob.sib with
+    | none =>
+      match w.known[k]? with
+      | none =>
+        if ob.res == .raised .other && ob.pos + w.rest.length == total && ob.fin == w.fin then .ok w
+        else .error "no-such-future"
+      | some _ => .error "sibling-missing"
+    | some (d, r2) =>
+      match w.known[k]? with
+      | none => .error "no-such-future"
+      | some (some x) =>
+        if ob.res != .item x || !d then .error "future-stable"
+        else watchBasic total w (sibObs ob a r2)
+      | some none =>
+        let (w1, x) := drainWatch w k
+        if ob.res != .item x then .error "task-result"
+        else if d then watchBasic total w1 (sibObs ob a r2)     -- the task was computed when the sibling ran
+        else
+          -- the task had started but was NOT computed when the sibling advanced: the guard must still hold
+          if r2 == refused a && ob.pos + w1.rest.length == total && ob.fin == w1.fin then .ok w1
+          else .error "guard-started"
+  | _ => if ob.sib.isSome then .error "sibling-unexpected" else watchBasic total w ob
 
 def watchRun (total : Nat) (w : Watch) : List Obs → Except String Watch
   | [] => .ok w
